@@ -177,6 +177,17 @@ def build_cases(tier: str, seed: int) -> tuple[list[dict[str, Any]], dict[str, A
                 add("iso4-sample", [1, 2, 3, 4], g4[gi], depth, [], False)
         info["iso4-sample"] = "768 of the 4096 four-session graphs (seeded sample) x depth{1,2,3}, skip {}"
         ndraw = 2000
+    # --reset: the ECU is reset before every probe; answered, refused, or performed without an answer
+    # (the scanner's "Lost connection to the ECU after performing a reset" path)
+    via = [[1, 1], [1, 2], [2, 1], [2, 4], [4, 1]]  # session 4 only reachable through session 2
+    reset_graphs = [([1, 2, 4], via), ([1, 2, 3], g3[len(g3) // 2]), ([1, 2, 3], g3[-1])]
+    if tier != "quick":
+        reset_graphs += [([1, 2, 3], E) for E in g3[::4]]
+    for ids, E in reset_graphs:
+        for mode in ("pos", "neg", "silent"):
+            for depth in ((2,) if tier == "quick" else (1, 2, 3)):
+                add("reset", ids, E, depth, [], False, reset=1, reset_mode=mode, tp=False)
+    info["reset"] = "--reset 1 against ECUs answering / refusing / silently performing the reset"
     for _ in range(ndraw):
         c = random_case(rnd)
         c["fam"] = "draw-" + c.pop("shape")
